@@ -63,7 +63,7 @@ def explicit_h_edges(rep):
     MISC_ = "synkit/Graph/Hyrogen/_misc.py"
     fi = rep.f(MISC_, "h_to_explicit")
     n = 0
-    for c in [c for c in walk_local(fi.node) if isinstance(c, ast.Call) and call_name(c) == "add_edge"]:
+    for c in [c for c in walk_local(fi.node) if isinstance(c, ast.Call) and call_name(c) in ("add_edge", "add_edges_from")]:
         n += 1
         ordv = kwarg(c, "order")
         if ordv is None:
